@@ -30,6 +30,7 @@ package srv
 //@   nopanic off
 //@   requires @wellformed s.Node != nil
 //@   modifies nothing
+//@   ensures @own_map result == nil || fresh(result)
 //@
 //@ func (*APIServer).getGlobalRichList
 //@   nopanic off
